@@ -30,14 +30,14 @@ type crun struct {
 	lostQueue map[int]bool // nodes that lost their cache DB
 	lastFault time.Duration
 	extra     map[string]func(op harness.Op, idx int) // property-specific op kinds
-	settled   func() bool                            // optional extra convergence predicate
+	settled   func() bool                             // optional extra convergence predicate
 }
 
 var clusterComponents = map[string]string{
 	"kernel consensus/validation/round/graph/election/queue code incl. bodies of QueuePollSnapshots, AggregateMintWork, AggregateRoundSpace": "real (stepped one iteration per call, no kernel goroutine)",
-	"storage.BadgerStore":                               "real (Badger on tmpfs, behind an intercepting wrapper)",
-	"p2p message builders, parser, dispatcher, graph-sync comparison": "real",
-	"QUIC transport, TLS, relayer forwarding, send/receive/sync loop scaffolding": "stub: simulated transport (delay/drop/dup/reorder/partition), all nodes direct neighbours",
+	"storage.BadgerStore": "real (Badger on tmpfs, behind an intercepting wrapper)",
+	"p2p message builders, parser, dispatcher, graph-sync comparison":                               "real",
+	"QUIC transport, TLS, relayer forwarding, send/receive/sync loop scaffolding":                   "stub: simulated transport (delay/drop/dup/reorder/partition), all nodes direct neighbours",
 	"loop scaffolding of loopCacheQueue, ConsumeFinalActions, MintLoop, ElectionLoop, graph sender": "stub: simulator schedules the real loop bodies with the real periods",
 	"clock (kernel/internal/clock, p2p recently-sent filter), entropy (crypto.ReadRand)":            "simulated (per-node skew; seeded DRBG)",
 	"ristretto memo cache": "real, Wait() after every step",
@@ -80,14 +80,16 @@ func newClusterRun(prop string, p *harness.Plan) (*crun, error) {
 		OpPeriod:    time.Duration(p.P("op_period_s", 700)) * time.Second,
 		EpochShift:  p.P("epoch_shift_s", 0),
 		Net: cluster.NetConfig{
-			DropRate:    float64(p.P("drop_ppm", 0)) / 1e6,
-			DupRate:     float64(p.P("dup_ppm", 0)) / 1e6,
-			ReorderRate: float64(p.P("reorder_ppm", 0)) / 1e6,
-			MinLatency:  time.Millisecond,
-			MaxLatency:  time.Duration(p.P("maxlat_ms", 60)) * time.Millisecond,
+			DropRate:        float64(p.P("drop_ppm", 0)) / 1e6,
+			DupRate:         float64(p.P("dup_ppm", 0)) / 1e6,
+			ReorderRate:     float64(p.P("reorder_ppm", 0)) / 1e6,
+			MinLatency:      time.Millisecond,
+			MaxLatency:      time.Duration(p.P("maxlat_ms", 60)) * time.Millisecond,
+			HoldOnPartition: p.P("hold_on_partition", 0) == 1,
 		},
 	}
 	cfg.KeepTrace = os.Getenv("VERIF_TRACE") != ""
+	cfg.LogStore = os.Getenv("VERIF_LOGSTORE") != ""
 	c, err := cluster.New(cfg)
 	if err != nil {
 		return nil, err
